@@ -294,6 +294,14 @@ func (h *c15Run) views() (mem, disk, load map[string]c15View, problems []string)
 			problems = append(problems, fmt.Sprintf("unreadable entry %q in accounts dir", e.Name()))
 			continue
 		}
+		if !strings.HasSuffix(e.Name(), ".yaml") {
+			// not an account file for the loader (it globs *.yaml) — but nothing else belongs here: the
+			// writers remove / rename their temporary file, so a left-over copy of account data is reported
+			h.c.Note("stray_file", e.Name())
+			h.c.Note("history", strings.Join(h.toks, " "))
+			h.c.Violation("stray-file-in-accounts-dir", fmt.Sprintf("the accounts directory contains %q (%d bytes) besides the account files", e.Name(), len(b)))
+			continue
+		}
 		var a hotline.Account
 		if err := yaml.Unmarshal(b, &a); err != nil {
 			problems = append(problems, fmt.Sprintf("file %q does not parse: %v", e.Name(), err))
